@@ -34,6 +34,12 @@ def main():
     patch = os.path.join(d, "patch.diff")
     demo = os.path.join(d, "demo.py")
     res = {"dir": d, "checks": {}}
+    old = {}
+    if os.path.exists(os.path.join(d, "eval.json")):
+        try:
+            old = json.load(open(os.path.join(d, "eval.json")))
+        except Exception:  # noqa: BLE001
+            old = {}
     rc, out = sh("git -C /repo status --porcelain")
     if out.strip():
         print("refusing: /repo has uncommitted changes:\n" + out)
@@ -80,6 +86,9 @@ def main():
             rc, o = sh("git -C /repo status --porcelain")
             if o.strip():
                 res["repo_not_clean"] = o
+    if a.skip_suite and old.get("suite"):
+        res["suite"] = old["suite"]  # confirmed by an earlier evaluation of the same patch
+    res["first_run_checks"] = old.get("first_run_checks") or old.get("checks")
     res["detected_by"] = sorted({k.split("@")[0] for k, v in res["checks"].items() if v["violations"]})
     with open(os.path.join(d, "eval.json"), "w") as f:
         json.dump(res, f, indent=1)
